@@ -365,7 +365,9 @@ func (x *Exec) applyContract(st *State, con *Contract, cname string, pnames []st
 	if len(con.Postulates) > 0 {
 		x.v.notePostulate(cname)
 	}
+	x.afterResult = &res
 	x.applyAfter(st, site, pre, pos)
+	x.afterResult = nil
 	x.lastAfterIns = ins
 	x.v.noteUse(x.shortFn(x.fn), cname, con)
 	return res
@@ -379,6 +381,7 @@ func (x *Exec) applyAfter(st *State, site string, pre *Snapshot, pos token.Pos) 
 		for _, cl := range x.con.After[site] {
 			fe := x.envFor(st)
 			x.addNamedLocals(fe, st)
+			x.bindCallResult(fe)
 			fe.old = pre
 			if cl.Kind == "after.sets" {
 				// ghost assignment: the named ghost variable takes the value of the expression
@@ -404,6 +407,7 @@ func (x *Exec) applyAfter(st *State, site string, pre *Snapshot, pos token.Pos) 
 				// in a ghost assertion old() denotes the state at function entry (as in postconditions)
 				fe2 := x.envFor(st)
 				x.addNamedLocals(fe2, st)
+				x.bindCallResult(fe2)
 				if g2, err2 := fe2.evalBool(cl.E); err2 == nil {
 					g = g2
 				}
@@ -719,5 +723,23 @@ func (x *Exec) escapeHavoc(st *State, args []Val, calleeTs []target) {
 			}
 			st.havocH(arr, es)
 		}
+	}
+}
+
+// bindCallResult makes the result(s) of the call an `after` clause is attached to visible as callresult
+// (callresult0, callresult1, ... for several results).
+func (x *Exec) bindCallResult(e *Env) {
+	if x.afterResult == nil {
+		return
+	}
+	r := *x.afterResult
+	switch r.K {
+	case VTuple:
+		for k, el := range r.Elems {
+			e.vars[fmt.Sprintf("callresult%d", k)] = el
+		}
+	case VNone:
+	default:
+		e.vars["callresult"] = r
 	}
 }
